@@ -160,6 +160,10 @@ impl Source for SeekableDecoder {
         self.buffer.total_size().into()
     }
     fn read(&self, offset: Offset, buf: &mut [u8]) -> std::io::Result<usize> {
+        if offset.force_into_usize() > self.buffer.total_size() {
+            // Nothing to read after the end.
+            return Ok(0);
+        }
         let end = std::cmp::min(
             offset.force_into_usize() + buf.len(),
             self.buffer.total_size(),
